@@ -510,3 +510,195 @@ Proof.
     + rewrite HM. reflexivity.
     + rewrite M. apply IH.
 Qed.
+
+(* ================================================================ the event log misses no cache write *)
+(* the entries written by the DStored nodes of a trace, at every depth *)
+Fixpoint ev_stores (e : event) : list centry :=
+  match e with
+  | EvCall k a inner _ _ r o d =>
+      (match d with DStored => [mkCe k a r o] | _ => [] end)
+      ++ (fix go (l : list event) : list centry := match l with [] => [] | x :: l' => ev_stores x ++ go l' end) inner
+  | _ => []
+  end.
+Definition stores_of (tr : list event) : list centry := flat_map ev_stores tr.
+Lemma ev_stores_call : forall k a inner b af r o d,
+  ev_stores (EvCall k a inner b af r o d) = (match d with DStored => [mkCe k a r o] | _ => [] end) ++ stores_of inner.
+Proof. intros; simpl; f_equal; induction inner; simpl; auto; try (rewrite IHinner; auto). Qed.
+Lemma stores_of_single : forall e, stores_of [e] = ev_stores e.
+Proof. intros. unfold stores_of. cbn [flat_map]. apply app_nil_r. Qed.
+Lemma stores_of_app : forall a b, stores_of (a ++ b) = stores_of a ++ stores_of b.
+Proof. intros. unfold stores_of. apply flat_map_app. Qed.
+
+(* every entry of the cache afterwards was there before or is the payload of a DStored node of the trace *)
+Definition writes_logged (r : res) (st st' : state) : Prop :=
+  forall ce, In ce (st_cache st') -> In ce (st_cache st) \/ In ce (stores_of (r_tr r)).
+
+Lemma wl_same : forall r st st', st_cache st' = st_cache st -> writes_logged r st st'.
+Proof. intros r st st' E ce H. rewrite E in H. auto. Qed.
+Lemma wl_then : forall r1 r2 st st1 st2, writes_logged r1 st st1 -> writes_logged r2 st1 st2 -> writes_logged (then_res r1 r2) st st2.
+Proof.
+  intros r1 r2 st st1 st2 A B ce H. simpl. rewrite stores_of_app, in_app_iff.
+  destruct (B _ H) as [H1|H1]; auto. destruct (A _ H1); auto.
+Qed.
+Lemma wl_with_oc : forall r o b st st', writes_logged r st st' -> writes_logged (with_oc r o b) st st'.
+Proof. intros r o b st st' A ce H. simpl. apply A. auto. Qed.
+
+Lemma set_nochecks_cache : forall st fr x v r st', set_nochecks st fr x v = (r, st') -> st_cache st' = st_cache st.
+Proof.
+  unfold set_nochecks. intros st fr x v r st'.
+  destruct (nth_error (st_heap st) fr) as [f|]; [|intros H; inversion H; auto].
+  destruct (find_cell (fr_store f) x) as [[v0|x' e']|]; try (intros H; inversion H; auto; fail).
+  destruct (fr_outer f); [|intros H; inversion H; auto].
+  destruct (walk (length (st_heap st)) (st_heap st) fr x); intros H; inversion H; auto.
+Qed.
+Lemma assign_cache : forall defs st fr x v r st', assign defs st fr x v = (r, st') -> st_cache st' = st_cache st.
+Proof.
+  unfold assign. intros defs st fr x v r st'.
+  destruct (constant_name x); [|apply set_nochecks_cache].
+  destruct (get defs (st_heap st) fr x) as [old isref h' dm evs| |].
+  - destruct (isref || negb (value_goeq old v)); [intros H; inversion H; auto|].
+    destruct (set_nochecks (set_heap st h') fr x v) as [r2 st2] eqn:S. intros H; inversion H; subst.
+    apply set_nochecks_cache in S. auto.
+  - apply set_nochecks_cache.
+  - intros H; inversion H; auto.
+Qed.
+Lemma bind_params_cache : forall defs ps vs st n b tr,
+  match bind_params defs st n ps vs b tr with
+  | BOk _ _ st' | BErr _ _ st' => st_cache st' = st_cache st
+  | BStuck => True
+  end.
+Proof.
+  induction ps as [|p ps IH]; simpl; intros vs st n b tr; auto.
+  destruct vs as [|v vs]; auto.
+  destruct (constant_name p).
+  - destruct (get defs (st_heap st) n p) as [old isref h' dm evs| |]; auto.
+    + destruct (isref || negb (value_goeq old v)); simpl; auto.
+      specialize (IH vs (set_heap st (set_cell h' n p (CVal v))) n (b + dm) (tr ++ evs)).
+      destruct (bind_params defs _ n ps vs (b + dm) (tr ++ evs)); auto.
+    + specialize (IH vs (set_heap st (set_cell (st_heap st) n p (CVal v))) n b tr).
+      destruct (bind_params defs _ n ps vs b tr); auto.
+  - specialize (IH vs (set_heap st (set_cell (st_heap st) n p (CVal v))) n b tr).
+    destruct (bind_params defs _ n ps vs b tr); auto.
+Qed.
+Lemma in_cache_put : forall c n ce, In ce (cache_put c n) -> In ce c \/ ce = n.
+Proof.
+  induction c as [|x c IH]; simpl; intros n ce H.
+  - destruct H; auto.
+  - destruct (ce_match (ce_key n) (ce_args n) x); simpl in H; destruct H as [H|H]; auto.
+    destruct (IH _ _ H); auto.
+Qed.
+
+Section LoggedEv.
+  Variable ev : state -> nat -> expr -> res * state.
+  Hypothesis Hev : forall st fr e r st', ev st fr e = (r, st') -> writes_logged r st st'.
+
+  Lemma eval_list_logged : forall es st fr r vals st', eval_list ev st fr es = (r, vals, st') -> writes_logged r st st'.
+  Proof.
+    induction es as [|e es IH]; simpl; intros st fr r vals st' H.
+    - inversion H; subst. apply wl_same; auto.
+    - destruct (ev st fr e) as [r1 st1] eqn:E1. pose proof (Hev _ _ _ _ _ E1) as G1.
+      destruct (r_oc r1) as [v| |]; try (inversion H; subst; auto; fail).
+      destruct (is_err v); [inversion H; subst; auto|].
+      destruct (eval_list ev st1 fr es) as [[r2 vs] st2] eqn:E2. inversion H; subst. eapply wl_then; eauto.
+  Qed.
+
+  Lemma apply_fn_logged : forall on defs st fr fv args r st',
+    apply_fn ev on defs st fr fv args = (r, st') -> writes_logged r st st'.
+  Proof.
+    unfold apply_fn. intros on defs st fr fv args r st' H.
+    destruct fv; try (inversion H; subst; apply wl_same; auto; fail).
+    destruct (nth_error defs d) as [fd|]; [|inversion H; subst; apply wl_same; auto].
+    destruct (if on then cache_get (st_cache st) (fd_key fd) args else None) as [[v o]|];
+      [inversion H; subst; apply wl_same; auto|].
+    destruct (nth_error (st_heap st) fr) as [cur|]; [|inversion H; subst; apply wl_same; auto].
+    destruct (nth_error (st_heap st) (if bytes_eqb (fr_key cur) (fd_key fd) then fr else env)) as [pf|];
+      [|inversion H; subst; apply wl_same; auto].
+    destruct (negb (length args =? length (fd_params fd))); [inversion H; subst; apply wl_same; auto|].
+    match type of H with context [bind_params ?a ?b ?c ?d ?e ?f ?g] =>
+      pose proof (bind_params_cache a d e b c f g) as BC; destruct (bind_params a b c d e f g) as [before tr st2|before tr st2|] end.
+    - simpl in BC.
+      destruct (ev st2 (length (st_heap st)) (fd_body fd)) as [rb st3] eqn:EB.
+      pose proof (Hev _ _ _ _ _ EB) as GB.
+      assert (INNER : forall d0 lg ms, writes_logged (mkRes (r_oc rb) false (r_out rb) lg
+                  [EvCall (fd_key fd) (map fst args) (tr ++ r_tr rb) before (before + r_miss rb)
+                          (match r_oc rb with OVal v => v | _ => VNil end) (r_out rb) d0] ms) st st3).
+      { intros d0 lg ms ce Hce. destruct (GB _ Hce) as [A|A]; [left; rewrite <- BC; auto|].
+        right. cbn [r_tr]. rewrite stores_of_single, ev_stores_call, in_app_iff. right. rewrite stores_of_app, in_app_iff. auto. }
+      destruct (r_oc rb) as [v| |] eqn:OB.
+      + destruct (negb (before + r_miss rb =? before)); [inversion H; subst; apply INNER|].
+        destruct (is_err v); [inversion H; subst; apply INNER|].
+        destruct (has_function v); [inversion H; subst; apply INNER|].
+        destruct (negb (key_ok args)); [inversion H; subst; apply INNER|].
+        destruct on; [|inversion H; subst; apply INNER].
+        inversion H; subst. intros ce Hce. simpl in Hce. apply in_cache_put in Hce. destruct Hce as [Hce|Hce].
+        * destruct (INNER DStored (r_log rb) 0 ce Hce) as [A|A]; auto.
+        * right. subst ce. cbn [r_tr]. rewrite stores_of_single, ev_stores_call. simpl. auto.
+      + inversion H; subst. intros ce Hce. destruct (GB _ Hce) as [A|A]; auto. left. rewrite <- BC. auto.
+      + inversion H; subst. intros ce Hce. destruct (GB _ Hce) as [A|A]; auto. left. rewrite <- BC. auto.
+    - simpl in BC. inversion H; subst. apply wl_same. auto.
+    - inversion H; subst. apply wl_same. auto.
+  Qed.
+End LoggedEv.
+
+Theorem eval_logged : forall fuel on defs st fr e r st',
+  eval fuel on defs st fr e = (r, st') -> writes_logged r st st'.
+Proof.
+  induction fuel as [|f IH]; intros on defs st fr e r st' H.
+  { simpl in H. inversion H. apply wl_same; auto. }
+  assert (Hev : forall st fr e r st', eval f on defs st fr e = (r, st') -> writes_logged r st st') by (intros; eapply IH; eauto).
+  simpl in H. destruct e.
+  - inversion H; apply wl_same; auto.
+  - destruct (get defs (st_heap st) fr x); inversion H; subst; apply wl_same; auto.
+  - destruct (eval f on defs st fr e) as [r1 st1] eqn:E1. pose proof (Hev _ _ _ _ _ E1).
+    destruct (r_oc r1) as [v| |]; try (inversion H; subst; auto; fail).
+    destruct (is_err v); [inversion H; subst; apply wl_with_oc; auto|].
+    destruct (assign defs st1 fr x v) as [r2 st2] eqn:A. inversion H; subst.
+    eapply wl_then; eauto. apply wl_same. eapply assign_cache; eauto.
+  - destruct (nth_error defs d) as [fd|]; [|inversion H; apply wl_same; auto].
+    destruct (fd_name fd); [|inversion H; apply wl_same; auto].
+    destruct (assign defs st fr i (VFun d fr)) as [r1 st1] eqn:A. pose proof (assign_cache _ _ _ _ _ _ _ A).
+    destruct (r_oc r1) as [v| |]; try (inversion H; subst; apply wl_same; auto; fail).
+    destruct (is_err v); inversion H; subst; apply wl_same; auto.
+  - destruct (eval f on defs st fr e) as [rf st1] eqn:E1. pose proof (Hev _ _ _ _ _ E1).
+    destruct (r_oc rf) as [fv| |]; try (inversion H; subst; auto; fail).
+    destruct (is_err fv); [inversion H; subst; apply wl_with_oc; auto|].
+    destruct (eval_list (eval f on defs) st1 fr args) as [[ra vals] st2] eqn:E2.
+    pose proof (eval_list_logged _ Hev _ _ _ _ _ _ E2).
+    destruct (r_oc ra) as [av| |]; try (inversion H; subst; eapply wl_then; eauto; fail).
+    destruct (is_err av); [inversion H; subst; apply wl_with_oc; eapply wl_then; eauto|].
+    destruct (apply_fn (eval f on defs) on defs st2 fr fv vals) as [rc st3] eqn:E3.
+    pose proof (apply_fn_logged _ Hev _ _ _ _ _ _ _ _ E3).
+    inversion H; subst. eapply wl_then; eauto. eapply wl_then; eauto.
+  - destruct (eval_list (eval f on defs) st fr es) as [[ra vals] st1] eqn:E2.
+    pose proof (eval_list_logged _ Hev _ _ _ _ _ _ E2).
+    destruct (r_oc ra) as [av| |]; try (inversion H; subst; auto; fail).
+    destruct (is_err av); inversion H; subst; apply wl_with_oc; auto.
+  - destruct (eval f on defs st fr e1) as [r1 st1] eqn:E1. pose proof (Hev _ _ _ _ _ E1).
+    destruct (r_oc r1) as [v1| |]; try (inversion H; subst; auto; fail).
+    destruct (is_err v1); [inversion H; subst; apply wl_with_oc; auto|].
+    destruct (eval f on defs st1 fr e2) as [r2 st2] eqn:E2. pose proof (Hev _ _ _ _ _ E2).
+    destruct (r_oc r2) as [v2| |]; try (inversion H; subst; eapply wl_then; eauto; fail).
+    destruct (is_err v2); inversion H; subst; apply wl_with_oc; eapply wl_then; eauto.
+  - destruct (eval f on defs st fr e1) as [rc st1] eqn:E1. pose proof (Hev _ _ _ _ _ E1).
+    destruct (r_oc rc) as [vc| |]; try (inversion H; subst; auto; fail).
+    destruct vc; try (inversion H; subst; apply wl_with_oc; auto; fail).
+    destruct (r_ref rc); [inversion H; subst; apply wl_with_oc; auto|].
+    destruct (eval f on defs st1 fr (if b then e2 else e3)) as [rb st2] eqn:E2. pose proof (Hev _ _ _ _ _ E2).
+    inversion H; subst. eapply wl_then; eauto.
+  - destruct (eval f on defs st fr e1) as [r1 st1] eqn:E1. pose proof (Hev _ _ _ _ _ E1).
+    destruct (r_oc r1) as [v1| |]; try (inversion H; subst; auto; fail).
+    destruct (is_err v1); [inversion H; subst; auto|].
+    destruct (eval f on defs st1 fr e2) as [r2 st2] eqn:E2. pose proof (Hev _ _ _ _ _ E2).
+    inversion H; subst. eapply wl_then; eauto.
+  - destruct (eval_list (eval f on defs) st fr es) as [[ra vals] st1] eqn:E2.
+    pose proof (eval_list_logged _ Hev _ _ _ _ _ _ E2).
+    destruct (r_oc ra) as [av| |]; try (inversion H; subst; auto; fail).
+    destruct (is_err av); [inversion H; subst; apply wl_with_oc; auto|].
+    destruct (all_some _); inversion H; subst.
+    + eapply wl_then; eauto. apply wl_same. auto.
+    + apply wl_with_oc; auto.
+  - inversion H; apply wl_same; auto.
+  - inversion H; apply wl_same; auto.
+  - inversion H; apply wl_same; auto.
+  - destruct (del_walk _ _ _ _); inversion H; subst; intros ce Hce; simpl in Hce; contradiction.
+Qed.
